@@ -39,7 +39,12 @@ type runCase struct {
 	DefaultOpts bool `json:"default_opts"`
 	// SharedBan: use the option VALUE shared by all cases of a concurrent group (set by the conc driver) before the own ones
 	SharedBan bool `json:"shared_ban"`
+	// Mem: the root file is read once; every repetition goes through kit.NewJApiFromFile over the SAME byte slice
+	Mem bool `json:"mem"`
 }
+
+// memFiles: case id -> content of the root file, shared by the repetitions of the case
+var memFiles = map[string][]byte{}
 
 // sharedOption is one core.Option value handed to several projects (conc driver)
 var sharedOption core.Option
@@ -336,7 +341,24 @@ func once(c *runCase, base string, want map[string]bool) (o *runObs) {
 			_ = wj.ValidateJAPI()
 		}
 	}
-	j, rerr := kit.NewJapi(rootPath, oo...)
+	var j kit.JApi
+	var rerr error
+	if c.Mem {
+		regMu.Lock()
+		content, ok := memFiles[c.ID]
+		regMu.Unlock()
+		if !ok {
+			content, rerr = os.ReadFile(rootPath)
+			regMu.Lock()
+			memFiles[c.ID] = content
+			regMu.Unlock()
+		}
+		if rerr == nil {
+			j = kit.NewJApiFromFile(sfs.NewFile(rootPath, content), oo...)
+		}
+	} else {
+		j, rerr = kit.NewJapi(rootPath, oo...)
+	}
 	if rerr != nil {
 		o.Outcome = "readerr"
 		o.Panic = rerr.Error()
